@@ -2,6 +2,7 @@
    sumbool, sumor are mapped to OCaml's; N, positive, nat stay the extracted inductives; no Extract Constant. *)
 From RBP Require Import Bytes Hashes Base58 Utf8 Wire Block Render ScriptCustom CustomTop ScriptBtc Index Model Reader.
 From RBP Require Merkle Drive Utxo Stats OutProto Published.
+From RBPGen Require SrcGen.
 Require Extraction. Require Import ExtrOcamlBasic.
 (* uniquely named entry points (extraction renames clashing identifiers with numeric suffixes otherwise) *)
 Definition x_run_case := run_case.
@@ -38,9 +39,9 @@ Definition x_reader_ref_run := Reader.ref_run.
 Definition x_reader_plain := Reader.plain.
 Definition x_heights := Drive.heights.
 Definition x_coin_of_name := coin_of_name.
-Definition x_csv_stems := Published.csv_stems.
-Definition x_unspent_stem := Published.unspent_stem.
-Definition x_balances_stem := Published.balances_stem.
+Definition x_csv_stems := SrcGen.csv_stems.
+Definition x_unspent_stem := SrcGen.unspent_stem.
+Definition x_balances_stem := SrcGen.balances_stem.
 Definition x_final_name := final_name.
 Definition x_tmp_name := tmp_name.
 Extraction "model.ml" x_run_case x_last_height x_eval_script x_csv_writes x_csv_totals x_utxo_final x_unspent_row x_unspent_totals
